@@ -1,7 +1,7 @@
 (* C04 -- statements only; see DESIGN.md section 6 C04.  Theorems are added as the proofs land;
    the witnesses below are evaluated in the kernel on the whole-parser model. *)
 From Coq Require Import String.
-From MdIt Require Import Prims Tables Mdurl Escape HtmlRe Tree Render Core Dump Dispatch MdurlProofs RenderProofs LinkProofs LinkSafeProofs.
+From MdIt Require Import Prims Tables Mdurl Escape HtmlRe Tree Render Core Dump Dispatch MdurlProofs RenderProofs LinkProofs LinkSafeProofs LinkAllProofs.
 Local Open Scope string_scope.
 Local Open Scope list_scope.
 Local Open Scope N_scope.
@@ -74,6 +74,22 @@ Theorem C04_tree_urls_validated : forall fuel m src d,
   LinkSafeProofs.raw_free validate_link (d_root d) = true.
 Proof. exact (LinkSafeProofs.parse_links_good validate_link (fun s H => H) eq_refl). Qed.
 
+(* END TO END.  url_safe u := validate_link accepts u, AND a browser reads the escaped attribute back as u itself (for
+   every string, bytes or not: the normaliser never emits a space or control character), AND if u is an ASCII string
+   it is not a dangerous URL.  Every URL of every parsed tree is url_safe.  The normaliser's output is ASCII for every
+   byte string (last theorem), so for real inputs the condition of the third clause holds; it is stated as a condition on
+   the URL in the tree -- a decidable fact about the result -- rather than carried through the parser. *)
+Theorem C04_end_to_end : forall fuel m src d,
+  LinkSafeProofs.md_pairs_ok url_safe m = true -> snd (parse fuel m src) = inr d ->
+  LinkSafeProofs.raw_free url_safe (d_root d) = true.
+Proof. exact parse_urls_safe. Qed.
+
+Theorem C04_browser_reads_tree_url : forall s, browser_view (escape_html (normalize_link s)) = normalize_link s.
+Proof. exact browser_reads_normalized. Qed.
+
+Theorem C04_normalized_is_ascii : forall s, bytes_ok s -> ascii_only (normalize_link s) = true.
+Proof. exact normalize_ascii_only. Qed.
+
 Example C04_sites_nonvacuous :
   let m := build_md (bs "CsW") 100 in
   LinkSafeProofs.md_pairs_ok validate_link m = true /\
@@ -91,3 +107,6 @@ Print Assumptions C04_validate_spec.
 Print Assumptions C04_pipeline.
 Print Assumptions C04_sites.
 Print Assumptions C04_tree_urls_validated.
+Print Assumptions C04_end_to_end.
+Print Assumptions C04_browser_reads_tree_url.
+Print Assumptions C04_normalized_is_ascii.
